@@ -364,8 +364,8 @@ def run(ctx, rep):
     serve = [n for n in gau.live if n.kind == "stmt" and n.ast is not None and A.find_calls(n.ast, "self._serve_client")]
     okr = bool(hs) and bool(serve)
     for h in hs:
-        r = Q.reach([h], labels=("next", "true", "false"))
-        if set(serve) & r:
+        r = Q.none_state_reach([h])
+        if {x.id for x in serve} & set(r):
             okr = False
     rep.ob("R16.4", "_authenticate_and_serve_client: a client that fails authentication is never served", okr,
            "the AuthenticationError handler returns; _serve_client is unreachable from it" if okr else
